@@ -22,6 +22,8 @@ pub struct Oracles {
     pub prefill3: bool,
     pub twin: bool,
     pub flags: bool,
+    /// property the per-call flag oracle is charged to ("C09"; "C02"/"C04" when those run it)
+    pub flags_prop: &'static str,
     pub encoding_used: bool,
     pub latin1: Option<usize>,
     pub adversarial_str: bool,
@@ -113,6 +115,9 @@ pub struct Key {
     pub rem: Vec<u8>,
     pub last: bool,
     pub fin: bool,
+    /// the bookkeeping against the reference was re-synchronised after a divergence that this
+    /// run does not report (another property's business): reference-dependent oracles are off
+    pub tainted: bool,
 }
 
 impl Key {
@@ -590,13 +595,10 @@ impl<'a> Explorer<'a> {
             }
         }
         // ---- C05 well-formedness of the written prefix / of the whole str
-        let chars = match scalars(&o, cfg.sink) {
-            Ok(v) => v,
-            Err(m) => {
-                self.vio(l, "C05", "written-prefix-ill-formed", m, id, &call);
-                return;
-            }
-        };
+        let chars_r = scalars(&o, cfg.sink);
+        if let Err(m) = &chars_r {
+            self.vio(l, "C05", "written-prefix-ill-formed", m.clone(), id, &call);
+        }
         if o.whole_invalid {
             self.vio(l, "C05", "destination-left-invalid", "the str/String handed to a safe function is not valid UTF-8 afterwards".into(), id, &call);
         }
@@ -665,6 +667,10 @@ impl<'a> Explorer<'a> {
                 }
             }
         }
+        let chars = match chars_r {
+            Ok(v) => v,
+            Err(_) => return,
+        };
         // ---- C07
         if or.query {
             if let Some(q) = self.query(&key.dec, src.len()) {
@@ -742,7 +748,8 @@ impl<'a> Explorer<'a> {
         let diverged = n < di.len() && n < ds.len();
         di.drain(..n);
         ds.drain(..n);
-        if or.encoding_used {
+        let mut tainted = key.tainted;
+        if or.encoding_used && !tainted {
             let want = used_name(cfg.enc.name, rs.used);
             let got = dec.encoding().name();
             if want != got {
@@ -763,11 +770,15 @@ impl<'a> Explorer<'a> {
                 return;
             }
         } else if diverged || di.len() > DEBT_CAP || ds.len() > DEBT_CAP || (fin && (!di.is_empty() || !ds.is_empty())) {
+            // not this run's property: keep following the implementation (so that its own
+            // oracles - progress, pre-fill, twin, contract - still see what happens next)
             *l.stats.suppressed.entry("conformance".into()).or_insert(0) += 1;
-            return;
+            di.clear();
+            ds.clear();
+            tainted = true;
         }
         // ---- C09 flags: had_errors iff one of this call's units is a substitution
-        if or.flags && cfg.repl {
+        if or.flags && cfg.repl && !tainted {
             let mut known = own_classified == own_count;
             if !known && ds.is_empty() {
                 // the implementation ran ahead by peeking: classify with a look-ahead clone
@@ -800,7 +811,7 @@ impl<'a> Explorer<'a> {
             }
             if known {
                 if o.had_errors != Some(own_subst) {
-                    self.vio(l, "C09", "had-errors-flag", format!("had_errors = {:?} but this call {} a replacement (wrote {} scalars)", o.had_errors, if own_subst { "wrote" } else { "did not write" }, own_count), id, &call);
+                    self.vio(l, if or.flags_prop.is_empty() { "C09" } else { or.flags_prop }, "had-errors-flag", format!("had_errors = {:?} but this call {} a replacement (wrote {} scalars)", o.had_errors, if own_subst { "wrote" } else { "did not write" }, own_count), id, &call);
                 }
             }
         }
@@ -815,7 +826,7 @@ impl<'a> Explorer<'a> {
         let nlast = if o.res == Res::InputEmpty { false } else { last };
         // rem empty and not last: equivalent to a fresh node (the empty chunk is an action)
         let nlast = if rem.is_empty() && !last { false } else { nlast };
-        let nk = Key { dec, rs, di, ds, rem, last: nlast && !fin, fin };
+        let nk = Key { dec, rs, di, ds, rem, last: nlast && !fin, fin, tainted };
         let weight = if in_domain { Some(if o.res == Res::InputEmpty { -4 * r as i32 } else { 1 - 4 * r as i32 }) } else { None };
         let h = hash_of(&nk);
         match self.index.find(h, |i| *self.keys[i as usize] == nk) {
@@ -984,7 +995,9 @@ impl<'a> Explorer<'a> {
             }
         }
         if let Some(nmax) = cfg.or.latin1 {
-            self.latin1(l, id, key, nmax);
+            if !key.tainted {
+                self.latin1(l, id, key, nmax);
+            }
         }
     }
 
@@ -1138,7 +1151,7 @@ impl<'a> Explorer<'a> {
         stats.configs = 1;
         let mut vios = VioSet::default();
         // node 0 is a sentinel parent; node 1 the initial state
-        let root = Key { dec: new_decoder(&cfg.enc, cfg.bom), rs: cfg.enc.ref_stream(cfg.bom), di: vec![], ds: vec![], rem: vec![], last: false, fin: false };
+        let root = Key { dec: new_decoder(&cfg.enc, cfg.bom), rs: cfg.enc.ref_stream(cfg.bom), di: vec![], ds: vec![], rem: vec![], last: false, fin: false, tainted: false };
         let root = Arc::new(root);
         self.nodes.push(NodeMeta { parent: 0, call: Call::new(&[], 0, false), fresh: true, depth: 0 });
         self.keys.push(root.clone());
@@ -1164,7 +1177,19 @@ impl<'a> Explorer<'a> {
                 }
             }
             let t_par = std::time::Instant::now();
-            let locals: Vec<Local> = par_map(&items, cfg.threads, |&(id, lo, hi)| self.expand(id, lo, hi));
+            let locals: Vec<Local> = par_map(&items, cfg.threads, |&(id, lo, hi)| {
+                // a panic here is a panic of the harness (those of the code under test are caught
+                // per call); it can be the consequence of memory corrupted by the code under test
+                match std::panic::catch_unwind(std::panic::AssertUnwindSafe(|| self.expand(id, lo, hi))) {
+                    Ok(l) => l,
+                    Err(e) => {
+                        let mut l = Local::default();
+                        l.stats = Stats::new();
+                        l.vios.add(Violation { prop: "MACHINERY".into(), kind: "harness-panic".into(), msg: format!("harness panicked while expanding a state of {}: {}", self.cfg.label(), crate::imp::panic_msg(e)), replay: J::obj() });
+                        l
+                    }
+                }
+            });
             let d_par = t_par.elapsed().as_secs_f64();
             let t_merge = std::time::Instant::now();
             let n_items = items.len();
@@ -1172,7 +1197,9 @@ impl<'a> Explorer<'a> {
             let mut class_total = vec![0u64; 26 * 100];
             for l in locals {
                 for (i, c) in l.class_counts.iter() {
-                    class_total[*i as usize] += c;
+                    if let Some(x) = class_total.get_mut(*i as usize) {
+                        *x += c;
+                    }
                 }
                 stats.merge(&l.stats);
                 vios.merge(l.vios);
@@ -1242,14 +1269,17 @@ impl<'a> Explorer<'a> {
 
     /// C08 (ii)/(iii): longest-path weights with positive-cycle detection.
     fn progress_graph(&self, stats: &mut Stats, vios: &mut VioSet) {
+        // Longest path from the initial node with edge weight (calls - 4 * input consumed).
+        // Relaxation stops as soon as some node exceeds the bound: that already is a history
+        // with more than 4n + 16 calls (a positive cycle exceeds every bound after a few rounds).
+        const BOUND: i64 = 16;
         let n = self.nodes.len();
         let mut dist: Vec<i64> = vec![i64::MIN; n];
-        let mut pred: Vec<u32> = vec![0; n];
         dist[1] = 0;
         let mut rounds = 0usize;
         let mut changed = true;
-        let mut culprit: Option<u32> = None;
-        while changed {
+        let mut culprit: Option<(u32, i64)> = None;
+        'outer: while changed {
             changed = false;
             rounds += 1;
             for &(a, b, w) in &self.edges {
@@ -1259,10 +1289,10 @@ impl<'a> Explorer<'a> {
                 }
                 if da + w as i64 > dist[b as usize] {
                     dist[b as usize] = da + w as i64;
-                    pred[b as usize] = a;
                     changed = true;
-                    if rounds > n + 1 {
-                        culprit = Some(b);
+                    if dist[b as usize] > BOUND {
+                        culprit = Some((b, dist[b as usize]));
+                        break 'outer;
                     }
                 }
             }
@@ -1272,18 +1302,11 @@ impl<'a> Explorer<'a> {
         }
         let maxw = dist.iter().copied().filter(|d| *d != i64::MIN).max().unwrap_or(0);
         stats.notes.push(format!("{}: progress graph {} edges, max path weight (calls - 4*read) = {}, relaxation rounds {}", self.cfg.label(), self.edges.len(), maxw, rounds));
-        if let Some(c) = culprit {
+        if let Some((c, w)) = culprit {
             let call = self.nodes[c as usize].call.clone();
             let parent = self.nodes[c as usize].parent;
             let mut l = Local::default();
-            self.vio(&mut l, "C08", "positive-cycle", "the call graph has a cycle with more calls than 4x the input consumed: the documented loop need not terminate".into(), parent, &call);
-            vios.merge(l.vios);
-        } else if maxw > 16 {
-            let (idx, _) = dist.iter().enumerate().filter(|(_, d)| **d != i64::MIN).max_by_key(|(_, d)| **d).unwrap();
-            let call = self.nodes[idx].call.clone();
-            let parent = self.nodes[idx].parent;
-            let mut l = Local::default();
-            self.vio(&mut l, "C08", "linear-bound-exceeded", format!("a history needs {} more calls than 4x its input length (bound 16)", maxw), parent, &call);
+            self.vio(&mut l, "C08", "linear-bound-exceeded", format!("the call graph contains a history with at least {} more calls than 4x the input it consumed (bound {}): the documented loop is not linearly bounded / need not terminate", w, BOUND), parent, &call);
             vios.merge(l.vios);
         }
     }
